@@ -40,7 +40,7 @@ func rtReset() {
 	}
 }
 
-func (m *rtMachine) push(v rtVal) { m.stack = append(m.stack, v) }
+func (m *rtMachine) push(v rtVal)  { m.stack = append(m.stack, v) }
 func (m *rtMachine) pushInt(i int) { m.stack = append(m.stack, rtVal{i: i}) }
 func (m *rtMachine) pushBool(b bool) {
 	if b {
